@@ -21,7 +21,11 @@ ln -sfn "$d/repo" "$d/verif/repo-link"
 for t in /verif/target-*; do [ -d "$t" ] && cp -r "$t" "$d/verif/" ; done
 cd "$d/verif"
 for prop in "$@"; do
-  out=$(VERIF_SEED=${VERIF_SEED:-1} ./check "$prop" --tier quick 2>&1); rc=$?
+  # first the cheap flavours; the full plan only if they miss
+  out=$(VERIF_SEED=${VERIF_SEED:-1} VERIF_FLAVOURS=${FIRST_FLAVOURS:-rel,rel+rayon} ./check "$prop" --tier quick 2>&1); rc=$?
+  if [ $rc -ne 1 ]; then
+    out=$(VERIF_SEED=${VERIF_SEED:-1} ./check "$prop" --tier quick 2>&1); rc=$?
+  fi
   viol=$(echo "$out" | grep -A1 "^VIOLATION property=$prop " | head -2 | tr '\n' ' ' | cut -c1-400)
   inc=$(echo "$out" | grep "^INCONCLUSIVE" | head -1 | cut -c1-300)
   nv=$(echo "$out" | grep -c "^VIOLATION property=$prop ")
